@@ -4,6 +4,7 @@ import (
 	"fmt"
 	"go/ast"
 	"go/token"
+	"net/url"
 	"strings"
 
 	"github.com/gopherjs/gopherjs/compiler/astutil"
@@ -63,6 +64,11 @@ func readLinknameFromComment(pkgPath string, comment *ast.Comment) (*GoLinkname,
 
 	if idx := strings.IndexByte(extName[pathOffset:], '.'); idx != -1 {
 		extPkg, extName = extName[:pathOffset+idx], extName[pathOffset+idx+1:]
+	}
+	// The gc toolchain spells special characters of the import path in a symbol name as %xx
+	// (a dot in the last path element is written %2e, see cmd/internal/objabi.PathToPrefix).
+	if unescaped, err := url.PathUnescape(extPkg); err == nil {
+		extPkg = unescaped
 	}
 
 	return &GoLinkname{
